@@ -127,10 +127,16 @@ def finish(ctx, level_text, seed=0):
     n_dis = sum(1 for k in ctx.order if ctx.obs[k].status == "discharged")
     nontrivial = sum(1 for k in ctx.order if not ctx.obs[k].trivial)
     samples = []
-    for k in ctx.order:
-        o = ctx.obs[k]
-        if o.status == "discharged" and o.sample is not None and len(samples) < 8:
-            samples.append({"rule": o.rule, "obligation": o.key, "instances": o.n, "sites": o.sites[:4], "witness": o.sample})
+    per_rule = {}
+    # written-out obligations of this run: the property's own rules first, at most two per rule, then the generic ones
+    for generic in (False, True):
+        for k in ctx.order:
+            o = ctx.obs[k]
+            if (o.rule in ("STORAGE", "ENGINE", "is_admin")) != generic:
+                continue
+            if o.status == "discharged" and o.sample is not None and len(samples) < 12 and per_rule.get(o.rule, 0) < 2:
+                per_rule[o.rule] = per_rule.get(o.rule, 0) + 1
+                samples.append({"rule": o.rule, "obligation": o.key, "instances": o.n, "sites": o.sites[:4], "witness": o.sample})
     if not samples:
         for k in ctx.order[:3]:
             o = ctx.obs[k]
